@@ -121,7 +121,7 @@ def forbidden_scan():
     """Fail closed on any forbidden declaration or switch anywhere in the development."""
     bad = []
     listed = [l.strip() for l in open(os.path.join(COQ, "_CoqProject")) if l.strip().endswith(".v")]
-    listed.append("extract/Extract.v")
+    listed += ["extract/" + f for f in sorted(os.listdir(os.path.join(COQ, "extract"))) if f.endswith(".v")]
     # every .v file of the development must be listed in _CoqProject (files still being written
     # live outside it and are not part of any claim)
     for rel in listed:
@@ -150,7 +150,10 @@ def coq_make(jobs=16, timeout=3000):
     if not os.path.exists(os.path.join(COQ, "Makefile")) or \
             os.path.getmtime(os.path.join(COQ, "Makefile")) < os.path.getmtime(os.path.join(COQ, "_CoqProject")):
         run(["coq_makefile", "-f", "_CoqProject", "-o", "Makefile"], cwd=COQ, check=True)
-    p = run(["make", "-j%d" % jobs], cwd=COQ, timeout=timeout)
+    import fcntl
+    with open(os.path.join(COQ, ".make.lock"), "w") as lk:
+        fcntl.flock(lk, fcntl.LOCK_EX)
+        p = run(["make", "-j%d" % jobs], cwd=COQ, timeout=timeout)
     return p.returncode == 0, (p.stdout + p.stderr)
 
 
@@ -215,25 +218,31 @@ def newer(src_paths, target):
     return any(os.path.getmtime(s) > t for s in src_paths)
 
 
-def build_driver():
-    """Extract the model (coqc in the receiving directory) and build the OCaml driver."""
-    gen = os.path.join(OCAML, "gen")
-    bld = os.path.join(OCAML, "_build")
+def build_driver(name="main"):
+    """Extract the model of engine <name> (coq/extract/Extract_<name>.v, coqc run in the receiving
+    directory) and build its OCaml driver (ocaml/wire.ml + ocaml/<name>/*.ml)."""
+    import fcntl
+    gen = os.path.join(OCAML, "gen", name)
+    bld = os.path.join(OCAML, "_build", name)
     os.makedirs(gen, exist_ok=True)
     os.makedirs(bld, exist_ok=True)
-    ex = os.path.join(COQ, "extract", "Extract.v")
-    vos = [os.path.join(COQ, "theories", f) for f in os.listdir(os.path.join(COQ, "theories")) if f.endswith(".vo")]
-    mods = [f for f in sorted(os.listdir(OCAML)) if f.endswith(".ml")]
-    if newer(vos + [ex], os.path.join(gen, "model.ml")):
-        run(["coqc", "-Q", os.path.join(COQ, "theories"), "Grog", ex], cwd=gen, timeout=900, check=True)
-    drv = os.path.join(bld, "driver")
-    srcs = [os.path.join(gen, "model.ml"), os.path.join(gen, "model.mli")] + [os.path.join(OCAML, m) for m in mods]
-    if newer(srcs, drv):
-        for s in srcs:
-            shutil.copy(s, bld)
-        order = ["model.mli", "model.ml", "wire.ml"] + [m for m in mods if m not in ("wire.ml", "driver.ml")] + ["driver.ml"]
-        run(["ocamlfind", "ocamlopt", "-O3", "-w", "-a", "-package", "unix", "-linkpkg"] + order + ["-o", "driver"],
-            cwd=bld, timeout=900, check=True)
+    with open(os.path.join(OCAML, "_build", ".lock-" + name), "w") as lk:
+        fcntl.flock(lk, fcntl.LOCK_EX)
+        ex = os.path.join(COQ, "extract", "Extract_%s.v" % name)
+        vos = [os.path.join(COQ, "theories", f) for f in os.listdir(os.path.join(COQ, "theories")) if f.endswith(".vo")]
+        src_dir = os.path.join(OCAML, name)
+        mods = [f for f in sorted(os.listdir(src_dir)) if f.endswith(".ml")]
+        if newer(vos + [ex], os.path.join(gen, "model.ml")):
+            run(["coqc", "-Q", os.path.join(COQ, "theories"), "Grog", ex], cwd=gen, timeout=900, check=True)
+        drv = os.path.join(bld, "driver")
+        srcs = [os.path.join(gen, "model.ml"), os.path.join(gen, "model.mli"), os.path.join(OCAML, "wire.ml")] + \
+               [os.path.join(src_dir, m) for m in mods]
+        if newer(srcs, drv):
+            for s in srcs:
+                shutil.copy(s, bld)
+            order = ["model.mli", "model.ml", "wire.ml"] + [m for m in mods if m != "driver.ml"] + ["driver.ml"]
+            run(["ocamlfind", "ocamlopt", "-O3", "-w", "-a", "-package", "unix", "-linkpkg"] + order + ["-o", "driver"],
+                cwd=bld, timeout=900, check=True)
     return drv
 
 
